@@ -180,7 +180,7 @@ impl Prop for C17 {
             .prop_map(|(mode, init, kind, n, seed, chunk, acks, spin)| C17Case::Kill { mode, init, kind, n, seed, chunk, acks, spin });
         let kw = tier.pick(1, 1) as u32;
         let durable = (
-            0u8..4,
+            0u8..5,
             prop_oneof![0u32..3000, 0u32..40_000, 0u32..200_000],
             any::<u32>(),
             prop_oneof![1u32..10, 1u32..3000, 1u32..20_000, 1u32..200_000],
@@ -239,7 +239,7 @@ impl Prop for C17 {
         }
     }
     fn rule(&self) -> String {
-        "enumerated: open modes x initial file states x sink kinds x {700, 3, 0} units of new data (189 combinations) and, for absent / non-empty files, three further spellings of the file name (bytes that are not UTF-8, non-ASCII with blanks, 200 characters; 54 combinations), plus generated data lengths/chunkings; fault enumeration: a child process streams a seeded sequence through the sink and acknowledges the running count of consumed samples (raw write(2)) after every work() that returns; the parent SIGKILLs it after a generated number of acknowledgements plus a generated busy-wait. Oracle: constructor result and final file content equal a model of the documented modes (Create fails iff the path exists; Overwrite leaves exactly the new data; Append keeps old content and appends, creating the file if absent; structural impossibilities are Err); after a kill the file is (old content for Append ++) a byte prefix of the serialised stream, at least as long as the last acknowledged count. In-process crash-point enumeration ('durable' cases): FileSink<u8|f32|Complex|u32> on streams of 8 KiB, 64 KiB, 1 MiB and the default 4 MB, fed batches of 1..200 000 samples (and, for the byte sink on the default stream, a few batches of 1-3.6 million); after *every* work() that returns, the file is read through a second descriptor (exactly what a SIGKILL at that instant leaves behind, since the page cache survives the process) and must hold all consumed samples and be a prefix of the serialised stream. A size-limited file (RLIMIT_FSIZE in a child: short writes, then EFBIG): what counts as consumed is in the file, the file is a prefix. Create raced from 2-8 threads on one absent path: exactly one constructor succeeds. Append with a second appender ('append-shared'): another handle appends markers to the file between work() calls; the file must be the old content followed by everything in the order it was written. Crash points inside a call ('blocked' cases): the destination is a FIFO drained by the harness in pieces, so the sink blocks in write(2) mid-call while the harness samples how much of the stream counts as consumed: bytes consumed <= bytes read from the FIFO + pipe capacity (+ one packet for the packet sink) at every observation - an invariant of any sink that consumes after writing, so timing can hide a violation but not produce one; and /dev/full, where the write fails: nothing of that call may count as consumed (stream sink). Non-trivial: a FIFO case with more data than the pipe holds, a durable case with >= 2 work() returns, a mode case whose initial state is not 'absent', or a kill that landed after >= 1 acknowledgement and before the end; distinct = hash of the case (kill timing is not part of the hash).".into()
+        "enumerated: open modes x initial file states x sink kinds x {700, 3, 0} units of new data (189 combinations) and, for absent / non-empty files, three further spellings of the file name (bytes that are not UTF-8, non-ASCII with blanks, 200 characters; 54 combinations), plus generated data lengths/chunkings; fault enumeration: a child process streams a seeded sequence through the sink and acknowledges the running count of consumed samples (raw write(2)) after every work() that returns; the parent SIGKILLs it after a generated number of acknowledgements plus a generated busy-wait. Oracle: constructor result and final file content equal a model of the documented modes (Create fails iff the path exists; Overwrite leaves exactly the new data; Append keeps old content and appends, creating the file if absent; structural impossibilities are Err); after a kill the file is (old content for Append ++) a byte prefix of the serialised stream, at least as long as the last acknowledged count. In-process crash-point enumeration ('durable' cases): FileSink<u8|f32|Complex|u32|a user-defined big-endian 16-bit sample type> on streams of 8 KiB, 64 KiB, 1 MiB and the default 4 MB, fed batches of 1..200 000 samples (and, for the byte sink on the default stream, a few batches of 1-3.6 million); after *every* work() that returns, the file is read through a second descriptor (exactly what a SIGKILL at that instant leaves behind, since the page cache survives the process) and must hold all consumed samples and be a prefix of the serialised stream. A size-limited file (RLIMIT_FSIZE in a child: short writes, then EFBIG): what counts as consumed is in the file, the file is a prefix. Create raced from 2-8 threads on one absent path: exactly one constructor succeeds. Append with a second appender ('append-shared'): another handle appends markers to the file between work() calls; the file must be the old content followed by everything in the order it was written. Crash points inside a call ('blocked' cases): the destination is a FIFO drained by the harness in pieces, so the sink blocks in write(2) mid-call while the harness samples how much of the stream counts as consumed: bytes consumed <= bytes read from the FIFO + pipe capacity (+ one packet for the packet sink) at every observation - an invariant of any sink that consumes after writing, so timing can hide a violation but not produce one; and /dev/full, where the write fails: nothing of that call may count as consumed (stream sink). Non-trivial: a FIFO case with more data than the pipe holds, a durable case with >= 2 work() returns, a mode case whose initial state is not 'absent', or a kill that landed after >= 1 acknowledgement and before the end; distinct = hash of the case (kill timing is not part of the hash).".into()
     }
     fn assumptions(&self) -> Vec<String> {
         vec![
@@ -761,7 +761,7 @@ fn run_blocked(kind: u8, n: usize, seed: u64, piece: usize, dev_full: bool, ctx:
 fn run_durable(kind: u8, n: usize, seed: u64, chunk_max: u64, stream: u8, ctx: &mut Ctx) {
     use rustradio::Sample;
     use std::io::{Read, Seek, SeekFrom};
-    let tname = ["u8", "f32", "Complex", "u32"][(kind % 4) as usize];
+    let tname = ["u8", "f32", "Complex", "u32", "Be16"][(kind % 5) as usize];
     ctx.class(format!("durable/{tname}"));
     let sc = Scratch::new();
     let path = sc.path("durable.bin");
@@ -822,7 +822,10 @@ fn run_durable(kind: u8, n: usize, seed: u64, chunk_max: u64, stream: u8, ctx: &
                 Ok(None)
             }};
         }
-        match kind % 4 {
+        match kind % 5 {
+            // a user-defined sample type that is big-endian on the wire: what reaches the file
+            // is what serialize() returns, not the memory image
+            4 => go!(crate::drip::Be16, |r: &mut crate::gens::XRng| crate::drip::Be16(r.next() as u16), |x: &crate::drip::Be16| x.0.to_be_bytes().to_vec()),
             0 => go!(u8, |r: &mut crate::gens::XRng| r.next() as u8, |x: &u8| vec![*x]),
             1 => go!(f32, |r: &mut crate::gens::XRng| r.unit(), |x: &f32| x.to_le_bytes().to_vec()),
             2 => go!(rustradio::Complex, |r: &mut crate::gens::XRng| rustradio::Complex::new(r.unit(), r.unit()), |x: &rustradio::Complex| [x.re.to_le_bytes(), x.im.to_le_bytes()].concat()),
